@@ -855,6 +855,10 @@ pub fn gen_wide(rng: &mut Rng, o: &WideOpts) -> WProgram {
     }
     // pipelines and their entry points
     let np = rng.below(o.max_pipes + 1) as usize;
+    // names that are prefixes / case variants of one another now and then
+    const NAME_SCHEMES: [[&str; 4]; 4] =
+        [["P0", "P1", "P2", "P3"], ["P", "P1", "P10", "P11"], ["Main", "main", "MAIN", "Main2"], ["AA", "A", "AAAA", "AAA"]];
+    let scheme = if rng.chance(1, 3) { 1 + rng.below(3) as usize } else { 0 };
     // (stage, node index)
     let mut entries: Vec<(&'static str, usize)> = Vec::new();
     let mut pipe_nodes: Vec<usize> = Vec::new();
@@ -934,7 +938,7 @@ pub fn gen_wide(rng: &mut Rng, o: &WideOpts) -> WProgram {
         }
         let flags = if rng.chance(1, 10) { "N".to_string() } else { String::new() };
         pipe_nodes.push(nodes.len());
-        nodes.push(Node { item: WItem::Pipe(WPipe { name: format!("P{}", i), flags, props }), deps });
+        nodes.push(Node { item: WItem::Pipe(WPipe { name: NAME_SCHEMES[scheme][i % 4].to_string(), flags, props }), deps });
     }
     // a function nobody references
     if rng.chance(1, 3) {
